@@ -374,6 +374,24 @@ def main():
             skipped[name] = str(e)
         except Exception as e:  # the extractor never guesses
             skipped[name] = f"{type(e).__name__}: {e}"
+    # the four projection keys of inertial flow: closures `|lat, lon| -> i32 { expr }` in ROTATED_COMPARATORS
+    try:
+        src = open(os.path.join(REPO, "src/inertial_flow.rs")).read()
+        m = re.search(r"const\s+ROTATED_COMPARATORS\s*:[^=]*=\s*\[(.*?)\];", src, re.S)
+        if not m:
+            raise Skip("ROTATED_COMPARATORS not found")
+        closures = re.findall(r"\|\s*(\w+)\s*,\s*(\w+)\s*\|\s*->\s*i32\s*\{([^}]*)\}", m.group(1))
+        if len(closures) != 4:
+            raise Skip(f"expected 4 comparators, found {len(closures)}")
+        arms = []
+        for i, (a, b, body) in enumerate(closures):
+            e = P(tokenize(body), {a: "lat", b: "lon"}).expr()
+            arms.append(f"  | {i} => {e}")
+        defs.append("/-- generated from src/inertial_flow.rs: ROTATED_COMPARATORS[axis](lat, lon) -/\n"
+                    "def rotatedComparator (axis : Nat) (lat lon : Int) : Int :=\n  match axis with\n" + "\n".join(arms) + "\n  | _ => 0\n")
+        done.append("ROTATED_COMPARATORS")
+    except Skip as e:
+        skipped["ROTATED_COMPARATORS"] = str(e)
     text = ("/- GENERATED by tools/translate.py from /repo's current source on every check run. Do not edit. -/\n"
             "namespace Tbx.Gen\n\n"
             "/-- `u32::leading_zeros` -/\n"
